@@ -14,4 +14,4 @@ Extraction "model.ml"
   reports_cycle lsp_run cli_run
   rule_unique rule_subrange reassemble mkDecl
   rule_symbolic
-  parse_expr_text render_expr parse_fb_text render_list list_bodies_ok.
+  parse_expr_text render_expr parse_fb_text render_list.
